@@ -112,3 +112,20 @@ def dispatch_deterministic():
                                  Da.kj(D0.it.jid(o)) == Db.kj(D0.it.jid(o)))),
     ]
     return [(nm, pc, g) for nm, g in goals]
+
+
+@lemma("complete-iff-every-job-finished", ("C01", "C04"))
+def complete_iff_all_jobs_finished():
+    """Reach(d) and n = N  =>  every job's next-operation index equals its length (so no
+    operation is ready and `is_complete` is exactly `all dispatched`); and conversely
+    Reach(d) and n < N leaves the deficit positive (used with the witness search of C04)."""
+    h = Heap(tag="L")
+    d = fresh("d")
+    D = Disp(h, d)
+    pc = [p for _, p in reach(h, d)]
+    j0 = fresh("j0")
+    return [
+        ("n-equals-N-implies-every-job-finished", pc + [D.n == D.it.N],
+         imp(rng(j0, 0, D.it.J), D.kj(j0) == D.it.L(j0))),
+        ("n-at-most-N", pc, D.n <= D.it.N),
+    ]
